@@ -53,6 +53,8 @@ def rich_story(rng, sid, timing=None):
             if rng.random() < 0.5:
                 note = E('studioCommand', E('text', text='note %d' % j), type=rng.choice(['note', 'other']))
                 extra.append(E('mosExternalMetadata', E('mosPayload', E('studioCommands', E('studioCommand', type='x'), note))))
+            if rng.random() < 0.15:
+                extra.append(gens.decoy_block())     # nested story / item / p / StoryDuration inside the item's payload
             body.append(item('i%d' % j, slug=('slug %d' % j) if rng.random() < 0.7 else None, extra=extra))
         else:
             body.append(p(rng.choice(['hello', '  spaced  ', '(note)', '<tech>', '(half', 'half>', '(a) and (b)', '', None,
@@ -111,6 +113,103 @@ def states(tier, rng):
                 yield state, {'kind': 'after-' + res['cls']}
 
 
+def story_local(s):
+    """the accessors of a Story that are functions of its own element alone (the model: story_id, story_slug,
+    item listing, story_body, story_script, story_duration)"""
+    def safe(f):
+        try:
+            return f()
+        except Exception as e:
+            return 'raises ' + type(e).__name__
+    return {'id': safe(lambda: s.id), 'slug': safe(lambda: s.slug),
+            'items': safe(lambda: [(i.id, i.slug, i.object_id, i.note) for i in s.items]),
+            'body': safe(lambda: [x if isinstance(x, str) else ('item', x.id) for x in s.body]),
+            'script': safe(lambda: list(s.script)), 'duration': safe(lambda: s.duration)}
+
+
+def held_objects(tier, rng):
+    """Story objects obtained before a merge are views of their element: after the merge, every one whose element
+    is still in the running order must report what a freshly obtained Story of the same element reports.
+    Yields (n comparisons, violations)."""
+    import warnings
+    from mosromgr.mostypes import RunningOrder, MosFile
+    from docs import item_insert, item_delete, item_replace, item_move_multiple, element_action, ref, ea_target, item
+    n, vio = 0, []
+    for h in range(40 if tier == 'quick' else 400):
+        ro_text = to_text(rich_ro(rng, rng.randrange(1, 5), all_timed=rng.random() < 0.5))
+        msgs = []
+        with warnings.catch_warnings():
+            warnings.simplefilter('ignore')
+            ro = RunningOrder.from_string(ro_text)
+            for step in range(rng.randrange(1, 5)):
+                try:
+                    held = ro.stories
+                except Exception:
+                    break
+                for st in held:
+                    story_local(st)                       # read everything once, as a caller displaying the story would
+                sids, items = gens.state_ids(str(ro))
+                if not sids:
+                    break
+                sid = rng.choice(sids)
+                its = items.get(sid, [])
+                c = rng.random()
+                if c < 0.25:
+                    d = item_insert(70 + step, sid, rng.choice(its + [None]), [item('h%d_%d' % (h, step), slug='held')])
+                elif c < 0.45 and its:
+                    d = item_delete(70 + step, sid, [rng.choice(its)])
+                elif c < 0.6 and its:
+                    d = item_replace(70 + step, sid, rng.choice(its), [item('r%d_%d' % (h, step), slug='repl')])
+                elif c < 0.75 and len(its) > 1:
+                    d = item_move_multiple(70 + step, sid, [its[-1], its[0]])
+                elif c < 0.85 and its:
+                    d = element_action(70 + step, 'DELETE', [ref('storyID', sid)], [[ref('itemID', rng.choice(its))]])
+                else:
+                    d = story_send(70 + step, sid, body=[p('resent'), E('storyItem', E('itemID', text='s%d' % step))])
+                t = to_text(d)
+                msgs.append(t)
+                try:
+                    ro += MosFile.from_string(t)
+                except Exception:
+                    continue
+                fresh = {id(f.xml): f for f in ro.stories}
+                for st in held:
+                    f = fresh.get(id(st.xml))
+                    if f is None:
+                        continue                          # its element was replaced or removed: no longer part of the state
+                    n += 1
+                    a, b = story_local(st), story_local(f)
+                    if a != b:
+                        k = next(k for k in a if a[k] != b[k])
+                        vio.append({'what': 'a Story object obtained before a %s reports %s = %r afterwards; its element in the running order gives %r'
+                                            % (d[3].tag, k, a[k], b[k]),
+                                    'case': {'kind': 'held', 'ro': ro_text, 'msgs': list(msgs)}, 'impl': str(a[k])[:300], 'expected': str(b[k])[:300]})
+                        break
+    return n, vio
+
+
+def replay_held(case):
+    import warnings
+    from mosromgr.mostypes import RunningOrder, MosFile
+    with warnings.catch_warnings():
+        warnings.simplefilter('ignore')
+        ro = RunningOrder.from_string(case['ro'])
+        for t in case['msgs']:
+            held = ro.stories
+            for st in held:
+                story_local(st)
+            try:
+                ro += MosFile.from_string(t)
+            except Exception:
+                continue
+            fresh = {id(f.xml): f for f in ro.stories}
+            for st in held:
+                f = fresh.get(id(st.xml))
+                if f is not None and story_local(st) != story_local(f):
+                    return {'violation': True, 'held': str(story_local(st))[:400], 'fresh': str(story_local(f))[:400]}
+    return {'violation': False}
+
+
 class ReportCheck:
     """compare the accessor report section by section; subclasses pick the fields and the oracle"""
     pid = None
@@ -162,11 +261,18 @@ class ReportCheck:
                 dis.append({'case': {'kind': 'state', 'ro': t, 'meta': meta}, 'impl': str(a)[:600], 'model': str(b)[:600], 'explained': bool(what)})
             if len(samples) < 2 and len(t) < 2500 and meta.get('kind') != 'initial':
                 samples.append({'ro': t, 'report': rep[:800]})
-        return {'evaluations': len(cases), 'distinct': len(sigs), 'rule': self.rule, 'samples': samples, 'distribution': dist,
-                'disagreements': dis, 'violations': vio, 'extra': {}}
+        extra = {}
+        if self.pid in ('C15', 'C17'):
+            hn, hvio = held_objects(tier, rng)
+            vio += hvio
+            extra['held_story_comparisons'] = hn
+        return {'evaluations': len(cases) + extra.get('held_story_comparisons', 0), 'distinct': len(sigs), 'rule': self.rule, 'samples': samples, 'distribution': dist,
+                'disagreements': dis, 'violations': vio, 'extra': extra}
 
     def replay(self, rep):
         case = rep.get('case') or {}
+        if case.get('kind') == 'held':
+            return replay_held(case)
         if 'ro' not in case:
             return {'violation': False, 'note': str(rep.get('detail'))}
         r = accessors.report(case['ro'])
@@ -176,6 +282,8 @@ class ReportCheck:
 
     def shrink(self, v):
         from checks.base import drop_variants
+        if v['case'].get('kind') == 'held':
+            return v
         case = dict(v['case'])
         budget = 200
         changed = True
@@ -250,8 +358,9 @@ class Check(ReportCheck):
     rule = ('seeded random running orders of 0..5 [0..11] stories carrying every subset of {mosExternalMetadata, mosPayload, '
             'StoryDuration, TextTime, MediaTime, StoryStarted, StoryEnded, slug, items with/without objID / mosID / objType / note, '
             'roEdStart in 4 formats}, and the states reached from them by append / insert / replace / delete / roStorySend of stories '
-            'with and without timing; every documented read accessor is evaluated (a raised exception is a value of the report). '
-            'distinct by the whole report')
+            'with and without timing; every documented read accessor is evaluated (a raised exception is a value of the report); '
+            'nested decoy elements (story / item / p / StoryDuration inside an item payload); Story objects held across item-level '
+            'merges must keep reporting what their element holds. distinct by the whole report')
 
     def oracle(self, text, rep, meta):
         if rep == 'norc':
